@@ -249,9 +249,7 @@ func (r *Run) footprintThenCells(fns []*Func) {
 			return strings.HasPrefix(c, "param:#") && (strings.HasSuffix(c, ".Center") || strings.HasSuffix(c, ".Extents") || strings.Contains(c, ".Center.") || strings.Contains(c, ".Extents."))
 		}
 		paths := r.Paths(fn)
-		if len(paths) > 6000 {
-			paths = paths[:6000]
-		}
+		paths = r.capPaths(fn, paths, 20000)
 		for pi := range paths {
 			path := &paths[pi]
 			r.at(path)
@@ -667,9 +665,7 @@ func (r *Run) staleCellIndex(fns []*Func) {
 			continue
 		}
 		paths := r.Paths(fn)
-		if len(paths) > 6000 {
-			paths = paths[:6000]
-		}
+		paths = r.capPaths(fn, paths, 20000)
 		r.Analysed(fn, len(paths))
 		mentionsOrigin := func(x ast.Expr) bool {
 			hit := false
